@@ -3,6 +3,7 @@ package h
 import (
 	"encoding/json"
 	"fmt"
+	"strings"
 
 	"verif/rt"
 	"verif/wire"
@@ -75,6 +76,15 @@ func replaySeq(o SeqOpts) func(c *rt.Ctx, raw json.RawMessage) string {
 
 func runC01(c *rt.Ctx) {
 	cfgs := AllCfgs([]string{"std"})
+	// the chunked L1 handler under the same orchestrators (as memproxy --chunked deploys it; the
+	// locking wrapper is single-reader there)
+	for _, o := range []string{"l1only", "l1l2", "l1l2b"} {
+		for _, p := range []string{"binary", "text"} {
+			for _, l := range []string{"none", "single"} {
+				cfgs = append(cfgs, Cfg{Orca: o, Lock: l, Proto: p, L1H: "chunked"})
+			}
+		}
+	}
 	maxLen := 2
 	depth := 4
 	if c.Thorough() {
@@ -98,4 +108,47 @@ func runC01(c *rt.Ctx) {
 	}
 	c.Set("depth_bound", depth)
 	c.Set("value_len_cap", maxLen)
+
+	// second sweep: one value of every length through every configuration, read back bit for bit
+	// (lengths cross bufio and chunk boundaries)
+	maxSweep := 2300
+	step := 1
+	if !c.Thorough() {
+		step = 7
+	}
+	for i, cfg := range cfgs {
+		if !c.Mine(1000 + i) {
+			continue
+		}
+		for n := 0; n <= maxSweep; n += step {
+			if c.Expired() {
+				return
+			}
+			ln := n
+			if !c.Thorough() && n > 0 {
+				ln = n - (i % step) // different residues per configuration
+			}
+			val := string(wire.GenValue(ln, ln+i))
+			if cfg.Proto == "text" {
+				val = strings.Map(func(r rune) rune { return r }, val)
+			}
+			ops := []wire.Op{
+				{Kind: "set", Key: "sw", Val: val, Flags: uint32(ln) * 2654435761, Port: len(cfg.Ports()) - 1},
+				{Kind: "get", Key: "sw"},
+				{Kind: "append", Key: "sw", Val: "tail", Port: 0},
+				{Kind: "mget", Keys: []string{"sw", "nope"}, Quiet: []bool{cfg.Proto == "binary", false}},
+			}
+			sc := SeqScenario{Harness: "C01", Cfg: cfg, Ops: ops}
+			var r *SeqResult
+			InBubble(c.T, func() { r = RunSeq(sc, SeqOpts{}) })
+			c.Eval(1)
+			c.Trace(1)
+			c.Trans(int64(len(ops)))
+			for _, f := range r.Findings {
+				c.Violation(f.Sig, f.What, sc)
+			}
+		}
+		c.Distinct("sweep|" + cfg.String())
+	}
+	c.Set("sweep_max_len", maxSweep)
 }
